@@ -1,7 +1,7 @@
 (* Properties_C12.v — port fidelity of the Address constructors, for EVERY byte string.
    getaddrinfo parses a numeric service with strtoul (blanks, optional sign, digits) and silently reduces it modulo 65536;
    sockpuppet's part is to reject such a service before it gets there, in every position a service can be written. *)
-From SP Require Import Base ListAux AddressModel AddressLemmas AddressSpelling AddressToString.
+From SP Require Import Base ListAux AddressModel AddressLemmas AddressSpelling AddressToString AddressScheme.
 Local Open Scope Z_scope.
 
 Lemma range_checked s : check_service_range s = None ->
@@ -86,6 +86,22 @@ Theorem text_round_trip_v4 : forall host port,
   uri_dissect (to_string_model false host port) = DOk host port true.
 Proof. exact AddressToString.text_round_trip_v4. Qed.
 
+Theorem text_round_trip_v6 : forall h6 port,
+  no_nul h6 -> forallb (fun c => negb (is_slash c)) h6 = true -> forallb (fun c => negb (is_newline c)) h6 = true ->
+  (length h6 < HOST_MAX)%nat ->
+  forallb is_digit port = true -> port <> [] -> (length port < SERV_MAX)%nat ->
+  check_service_range port = None ->
+  to_string_model true h6 port = bracket_port h6 port /\
+  uri_dissect (to_string_model true h6 port) = DOk h6 port true.
+Proof. exact AddressToString.text_round_trip_v6. Qed.
+
+(* "name://host" with a service NAME (letters) as scheme and (host, name) as a pair hand the same two texts to the resolver *)
+Theorem uri_scheme_host_is_pair : forall scheme host,
+  forallb is_alpha scheme = true -> scheme <> [] -> forallb plain_char host = true -> host <> [] ->
+  (length (scheme_host scheme host) <= AUTHORITY_MAX)%nat -> (length scheme <= SERV_MAX)%nat ->
+  uri_dissect (scheme_host scheme host) = DOk host scheme false /\ hostserv_dissect host scheme = DOk host scheme false.
+Proof. exact AddressScheme.uri_scheme_host_is_pair. Qed.
+
 Example c12_nonvacuous :
   uri_dissect [57;57;57;57;57;58;47;47;49;46;50;46;51;46;52] = DExn (RuntimeErr 1) /\       (* "99999://1.2.3.4" *)
   hostserv_dissect [49;46;50;46;51;46;52] [32;43;57;57;57;57;57] = DExn (RuntimeErr 1) /\   (* ("1.2.3.4", " +99999") *)
@@ -98,6 +114,8 @@ Print Assumptions no_silent_wrap_uri.
 Print Assumptions uri_host_port_is_pair.
 Print Assumptions uri_bracket_port_is_pair.
 Print Assumptions text_round_trip_v4.
+Print Assumptions text_round_trip_v6.
+Print Assumptions uri_scheme_host_is_pair.
 Print Assumptions no_silent_wrap_pair.
 Print Assumptions pair_service_unchanged.
 Print Assumptions port_of_encode4.
